@@ -103,6 +103,13 @@ CHECKS = {
                      'library for every spelling, at --output or <input>.rs, no stale tail; on failure a non-zero outcome and an untouched pre-existing output. Findings are replayed with the '
                      'native binary in a scratch directory.',
                 note='trusted: models of clap / std::path / std::fs in lib/e2props.py; real OS behaviour (permissions, symlinks, non-UTF-8 names) is outside'),
+    'C13': dict(engine='E2-smi', cat='model_checking', design='4/C13',
+                technique='symbolic execution of reader + emitter MIR in departure mode: every attribute / element optional, QNames retargetable, bounded number of departures; panics and divergence are outcomes',
+                text='On documents that exercise every reader branch, each attribute and each non-root element may be missing and each QName-valued attribute may dangle or point at its own '
+                     'component (at most 1 departure at a time in the quick tier, 2 in the thorough tier); the interpreter treats unwrap/expect/assert/index/overflow panics and call-depth '
+                     'divergence as path outcomes and z3 yields the departure set of every such path, which is replayed on the native binary. Also: unregistered start file, a message part '
+                     'naming a non-element component. Import cycles are decided by C11.',
+                note='trusted: SMI environment models; roxmltree itself (only "parse fails" is modelled for malformed text); inputs are departures from three base documents; time is counted in MIR steps, not seconds'),
 }
 
 NA = {
@@ -110,7 +117,7 @@ NA = {
     'C04': 'deserialization and round-trip are executed by yaserde derive expansion and xml-rs at run time (fmt/dyn/heap); CBMC cannot get through it and the MIR interpreter covers zeep, not yaserde',
     'C18': 'Send/Sync are auto-trait facts computed by rustc from the coroutine layout, not properties of executions a bounded symbolic run can falsify',
 }
-PENDING = ['C13', 'C14']
+PENDING = ['C14']
 
 
 def main():
